@@ -7,6 +7,10 @@ import importlib
 
 CLAIMED = {
  # id: (technique, level_note, design_ref)
+ 'C08': ('dtype-literal evaluator + size algebra: writer/reader header layout comparison, inverse-relation check of header field <-> attribute/dimension maps, slot-pairing rules for begin/end flags, sibling table agreement, installed-numpy API resolution',
+         'Decides: uamiv / lateral_boundary / landuse record layouts agree between Write.py and Memmap.py; every header field filled from an attribute or dimension is read back into the same one; '
+         'begin/end date-time fields are paired within their slot (also at roll-over); boundary edge/cell-count and cloud/rain variable-order tables agree; writers and readers use only existing numpy APIs. '
+         'Not decided: float32 identity of payloads, date roll-over arithmetic values, byte-identical rewrite.', '4/C08'),
  'C01': ('ast pairing rule createDimension/setunlimited with a survive-from-source relation (loop key, bulk copy, indexed read), verification of the two dimension-copy primitives, who-may-write rule for the attribute-name list',
          'Decides: every re-creation of a dimension that survives from a source propagates the unlimited flag; copyDimension/addDimension keep it on all branches; the attribute '
          'list is written only by life-cycle methods in step with the attribute store. Not decided: shape/dimension agreement after arbitrary operation sequences, completion of '
